@@ -16,7 +16,7 @@ use std::sync::atomic::{AtomicI64, Ordering};
 use std::sync::{Arc, Condvar, Mutex};
 use std::time::Duration;
 
-pub const RULE: &str = "an in-process WebSocket connection (duplex) to a server with per-connection cap C in {1..16, unlimited}; C gate-controlled off-reader requests are sent and the harness waits until all C handlers signalled that they are running (saturation is observed, not timed); then E extra requests and notifies are sent at the cap, inline requests are interleaved, the parked handlers are released in a generated order (all permutations for C<=3 in the exhaustive sub-check) with generated exit kinds {return, error, panic}, and finally C fresh requests are sent; oracle: the in-handler gauge never exceeds C, each request at the cap is answered ResourceExhausted before any gate is released, a notify at the cap never runs, inline requests are answered during saturation, every released handler's caller gets its own response (a panic as InternalError with that request's id), all C fresh requests are admitted afterwards (no leaked slot) and the connection still answers; with and without a forwarding middleware; non-trivial = saturation reached and at least one non-return exit; distinct = case hash";
+pub const RULE: &str = "an in-process WebSocket connection (duplex) to a server with per-connection cap C in {1..16, unlimited}; C gate-controlled off-reader requests are sent and the harness waits until all C handlers signalled that they are running (saturation is observed, not timed); then E extra requests and notifies are sent at the cap, inline requests are interleaved, the parked handlers are released in a generated order (all permutations for C<=3 in the exhaustive sub-check) with generated exit kinds {return, error, panic}, and finally C fresh requests are sent; oracle: the in-handler gauge never exceeds C, each request at the cap is answered ResourceExhausted before any gate is released, a notify at the cap never runs, inline requests are answered during saturation, every released handler's caller gets its own response (a panic as InternalError with that request's id), all C fresh requests are admitted afterwards (no leaked slot), one more request is then refused again (the cap did not grow), and the connection still answers; outbound queue capacities default, 1..3 and C; with and without a forwarding middleware; non-trivial = saturation reached and at least one non-return exit; distinct = case hash";
 
 #[derive(Debug, Clone, Copy, Serialize, Deserialize, Hash, PartialEq, Eq)]
 pub enum Exit {
@@ -37,6 +37,9 @@ pub struct Case {
     pub extra_notifies: u8,
     pub inline_during: u8,
     pub middleware: bool,
+    /// outbound queue capacity of the connection (0 = the server's default)
+    #[serde(default)]
+    pub outbound_capacity: u8,
 }
 
 #[derive(Default)]
@@ -152,9 +155,12 @@ pub fn check(c: &Case) -> CheckResult {
     let n = c.exits.len();
     let cap = if unlimited { n } else { c.cap as usize };
     ensure!(n == cap || unlimited, "generator-bug", "exits must have cap entries");
-    let shared = WebSocketServer::new(router(gates.clone(), c.middleware))
-        .with_offreader_limit(c.cap as usize)
-        .into_shared();
+    let mut server = WebSocketServer::new(router(gates.clone(), c.middleware)).with_offreader_limit(c.cap as usize);
+    if c.outbound_capacity > 0 {
+        // a parked handler must not hold on to any of the (few) outbound slots
+        server = server.with_outbound_capacity(c.outbound_capacity as usize);
+    }
+    let shared = server.into_shared();
     let g = gates.clone();
     let res: Result<bool, Fail> = block_on(async move {
         let conn = dws::connect(&shared, 1 << 16).await;
@@ -337,9 +343,29 @@ pub fn check(c: &Case) -> CheckResult {
                 ));
             }
         }
+        // 5b. the cap is still the cap: with `cap` fresh handlers parked, one more request
+        // is refused and never runs (a slot handed back twice would let it in)
+        if !unlimited {
+            io.send(&gate_req(950, 4000, Exit::Return, false)).await.map_err(|e| Fail::new("harness-send", e.to_string()))?;
+            let f = recv_by_id(&mut io, &mut stash, 950, "the saturation reply after the first handlers exited").await.map_err(|mut f| {
+                if f.sig == "no-response" {
+                    f.sig = "cap-grew-after-exits".into();
+                }
+                f
+            })?;
+            ensure!(
+                f.header.ec == ErrorCode::ResourceExhausted as u32 && !g.started.lock().unwrap().contains(&4000),
+                "cap-grew-after-exits",
+                "after the first {cap} handlers exited (exits {:?}) and {cap} fresh ones are parked, one more request was answered ec {} (ran: {})",
+                c.exits,
+                f.header.ec,
+                g.started.lock().unwrap().contains(&4000)
+            );
+        }
         for (_, idx) in &fresh {
             g.release(*idx);
         }
+        g.release(4000);
         for (id, _) in &fresh {
             let f = recv_by_id(&mut io, &mut stash, *id, "a fresh request's response").await?;
             ensure!(f.header.ec == 0, "fresh-request-failed", "fresh request {id} answered ec {}", f.header.ec);
@@ -397,9 +423,10 @@ fn case() -> BoxedStrategy<Case> {
                 0u8..4,
                 0u8..4,
                 Just(middleware),
+                prop_oneof![2 => Just(0u8), 2 => 1u8..=3, 1 => Just(cap.max(1))],
             )
         })
-        .prop_map(|(cap, exits, release, extra_requests, extra_notifies, inline_during, middleware)| Case {
+        .prop_map(|(cap, exits, release, extra_requests, extra_notifies, inline_during, middleware, outbound_capacity)| Case {
             cap,
             exits,
             release,
@@ -407,6 +434,7 @@ fn case() -> BoxedStrategy<Case> {
             extra_notifies,
             inline_during,
             middleware,
+            outbound_capacity,
         })
         .boxed()
 }
@@ -442,6 +470,7 @@ fn exhaustive() -> Vec<Case> {
                     extra_notifies: 1,
                     inline_during: 1,
                     middleware: code % 2 == 0,
+                    outbound_capacity: [0, 1, cap][(code / 2) % 3],
                 });
             }
         }
